@@ -174,6 +174,34 @@ def loop_header(loop):
     return iv, lo, op, hi, step
 
 
+def elem_ref(fns, node, depth=0):
+    """(container variable, index node) when node denotes container[index]: X[i], X.at(i), *(X.begin() + i), a reference / iterator
+    local bound once to one of those (resolved in any of the functions `fns`: the task body and its enclosing function)"""
+    if node is None or depth > 4:
+        return None
+    s = node.strip_all()
+    if s.k == 'CXXOperatorCallExpr' and s.op == '[]' and len(s.c) == 3 and ex.var_of(s.c[1]) is not None:
+        return ex.var_of(s.c[1]), s.c[2]
+    if s.k == 'CXXMemberCallExpr' and s.callee and s.callee['name'] == 'at' and s.args() and ex.var_of(s.object_arg()) is not None:
+        return ex.var_of(s.object_arg()), s.args()[0]
+    if s.k in ('CXXOperatorCallExpr', 'UnaryOperator') and s.op == '*':
+        return elem_ref(fns, s.c[-1], depth + 1)
+    if s.k == 'CXXOperatorCallExpr' and s.op == '+' and len(s.c) == 3:
+        b = s.c[1].strip_all()
+        if b.k == 'CXXMemberCallExpr' and b.callee and b.callee['name'] in ('begin', 'cbegin') and ex.var_of(b.object_arg()) is not None:
+            return ex.var_of(b.object_arg()), s.c[2]
+    v = ex.var_of(s)
+    if v is not None and s.k == 'DeclRefExpr':
+        vt = s.prog.type(s.prog.vars[v].get('ty')) or {}
+        for f in fns:
+            ds = ex.assignments_to(f, v)
+            decl = [x for x in ds if x[0].k == 'VarDecl' and x[1] is not None]
+            # a reference is bound once: later `x += ...` act on the element it names; a value / iterator local must not be re-assigned
+            if len(decl) == 1 and (len(ds) == 1 or vt.get('ref')):
+                return elem_ref(fns, decl[0][1], depth + 1)
+    return None
+
+
 def support_update(prog, fn, loopinfo):
     """find the orthogonalisation update inside the phase loop: returns dict or None"""
     loop = loopinfo['loop']
@@ -193,14 +221,9 @@ def support_update(prog, fn, loopinfo):
         for n in b2.walk():
             if n.k == 'CXXOperatorCallExpr' and n.op == '+=' and len(n.c) == 3:
                 l, r = n.c[1].strip_all(), n.c[2].strip_all()
-                for ff in (f2, fn):
-                    if l.k == 'DeclRefExpr':
-                        l = ex.alias_of(ff, l)
-                    if r.k == 'DeclRefExpr':
-                        r = ex.alias_of(ff, r)
-                if l.k == 'CXXOperatorCallExpr' and l.op == '[]' and r.k == 'CXXOperatorCallExpr' and r.op == '[]' and \
-                        'SpVecGF2' in (prog.base_type(l.j.get('t')) or {}).get('canon', ''):
-                    cands.append((f2, n, l, r, sc[2] if len(sc) > 2 else None))
+                le, re_ = elem_ref((f2, fn), l), elem_ref((f2, fn), r)
+                if le is not None and re_ is not None and 'SpVecGF2' in (prog.base_type(l.j.get('t')) or {}).get('canon', ''):
+                    cands.append((f2, n, le, re_, sc[2] if len(sc) > 2 else None))
                 elif 'SpVecGF2' in (prog.base_type(n.c[1].strip_all().j.get('t')) or {}).get('canon', ''):
                     OTHER_UPDATES.append(n)
             elif n.k in ('CallExpr', 'CXXMemberCallExpr') and n.callee and n.callee.get('in_repo'):
@@ -378,10 +401,9 @@ def analyse_phase(prog, F, fn, info):
         return
     f2, upd, l, r, pcall = cands[0]
     probs = []
-    supp_l, supp_r = ex.var_of(l.c[1]), ex.var_of(r.c[1])
+    (supp_l, lidx), (supp_r, ridx) = l, r
     if supp_l != supp_r:
         probs.append('source and target of the update are different containers')
-    lidx, ridx = l.c[2], r.c[2]
     if ex.var_of(ridx) != kvar:
         probs.append('the vector added is support[%s], not support[k]' % ridx.text(20))
     # the inner index and its range
@@ -424,15 +446,15 @@ def analyse_phase(prog, F, fn, info):
             a, b = s.c[0].strip_all(), s.c[1].strip_all()
             for x, y in ((a, b), (b, a)):
                 if x.k == 'CXXOperatorCallExpr' and x.op == '*' and len(x.c) == 3 and y.cv in (0, 1):
-                    vx = x.c[1].strip_all()
-                    if vx.k == 'CXXOperatorCallExpr' and vx.op == '[]' and ex.var_of(vx.c[1]) == supp_l and ex.key(vx.c[2]) == ex.key(lidx):
+                    vx = elem_ref((f2, fn), x.c[1])
+                    if vx is not None and vx[0] == supp_l and ex.key(vx[1]) == ex.key(lidx):
                         Cvar['v'] = ex.var_of(x.c[2])
                         f = ex.f_atom('odd')
                         truth = (s.op == '==') == (y.cv == 1)
                         return f if truth else ex.f_not(f)
         if s.k == 'CXXOperatorCallExpr' and s.op == '*' and len(s.c) == 3:
-            vx = s.c[1].strip_all()
-            if vx.k == 'CXXOperatorCallExpr' and vx.op == '[]' and ex.var_of(vx.c[1]) == supp_l and ex.key(vx.c[2]) == ex.key(lidx):
+            vx = elem_ref((f2, fn), s.c[1])
+            if vx is not None and vx[0] == supp_l and ex.key(vx[1]) == ex.key(lidx):
                 Cvar['v'] = ex.var_of(s.c[2])
                 return ex.f_atom('odd')
         return None
